@@ -257,6 +257,8 @@ mod sx {
         "x.com##.ad",
         "x.com##+js(s1, v)",
         "##.generic",
+        "*$removeparam=utm",
+        "||x.com^$removeparam=ref",
     ];
 
     #[derive(Clone, Copy, Debug, PartialEq)]
@@ -266,7 +268,11 @@ mod sx {
         Cosmetic,
         Hidden,
     }
-    const URLS: &[&str] = &["https://x.com/foo1bar", "https://a.ads.net/x", "https://x.com/baz/qux", "https://x.com/ad12", "https://x.com/plain", "https://x.com/tagged1rule"];
+    const URLS: &[&str] = &[
+        "https://x.com/foo1bar", "https://a.ads.net/x", "https://x.com/baz/qux", "https://x.com/ad12", "https://x.com/plain", "https://x.com/tagged1rule",
+        // requests whose answers carry per-request data (different rewritten URLs)
+        "https://x.com/p?utm=1&a=2", "https://x.com/q?ref=9&b=3&utm=2",
+    ];
 
     pub fn engine() -> Engine {
         let mut e = Engine::from_rules_parametrised(RULES, Default::default(), true, false);
@@ -279,7 +285,7 @@ mod sx {
 
     pub fn ask(e: &Engine, q: Q) -> String {
         match q {
-            Q::Check(i) => format!("{:?}", Verdict::of(&e.check_network_request(&Request::new(URLS[i], "https://y.com/", "script").unwrap()))),
+            Q::Check(i) => format!("{:?}", Verdict::of(&e.check_network_request(&Request::new(URLS[i], "https://y.com/", if i >= 6 { "xmlhttprequest" } else { "script" }).unwrap()))),
             Q::Csp => format!("{:?}", csp_set(&e.get_csp_directives(&Request::new("https://x.com/", "https://x.com/", "document").unwrap()))),
             Q::Cosmetic => {
                 let r = e.url_cosmetic_resources("https://x.com/");
@@ -302,6 +308,7 @@ mod sx {
             ("3x2", vec![vec![Check(0), Check(3)], vec![Check(3), Check(0)], vec![Check(1), Check(5)]]),
             ("2x3", vec![vec![Check(2), Csp, Check(0)], vec![Cosmetic, Check(0), Check(2)]]),
             ("2x2-mixed", vec![vec![Cosmetic, Check(5)], vec![Csp, Hidden]]),
+            ("2x2-rewrite", vec![vec![Check(6), Check(0)], vec![Check(7), Check(6)]]),
         ]
     }
 
@@ -510,7 +517,7 @@ fn sync_main(tier: vh::Tier) -> i32 {
         let max_bound = match (tier, *name) {
             (vh::Tier::Quick, "3x2") => 1, // 3x2 with 2 preemptions is 10 660 schedules (~40 s): thorough only
             (vh::Tier::Quick, _) => 2,
-            (vh::Tier::Thorough, "2x2") | (vh::Tier::Thorough, "2x2-mixed") => 4,
+            (vh::Tier::Thorough, "2x2") | (vh::Tier::Thorough, "2x2-mixed") | (vh::Tier::Thorough, "2x2-rewrite") => 4,
             (vh::Tier::Thorough, _) => 3,
         };
         for b in 0..=max_bound {
@@ -652,7 +659,7 @@ fn sync_main(tier: vh::Tier) -> i32 {
     }
     ctx.finish(
         "model_checking",
-        "(a) every interleaving of the thread plans (2x2, 3x1, 3x2, 2x3, 2x2-mixed: real OS threads on one shared real engine of the Sync build, regex-heavy rules, always-discard policy) with at most k preemptions, k = 0..bound, explored by stateless DFS; scheduling points at the real regex-manager lock (try_lock decides blocking) and inside the critical section; oracle per schedule: every answer equals the single-thread answer of a fresh engine, no panic, no deadlock, lock not poisoned; (b) one engine per list of C01's quick universe (+ cosmetic rules): all answers hashed by the single-thread build and recomputed by the thread-safe build; states = distinct traces + engines, transitions = scheduling points + queries; non-trivial = distinct traces",
+        "(a) every interleaving of the thread plans (2x2, 3x1, 3x2, 2x3, 2x2-mixed, 2x2-rewrite: real OS threads on one shared real engine of the Sync build, regex-heavy rules, always-discard policy) with at most k preemptions, k = 0..bound, explored by stateless DFS; scheduling points at the real regex-manager lock (try_lock decides blocking) and inside the critical section; oracle per schedule: every answer equals the single-thread answer of a fresh engine, no panic, no deadlock, lock not poisoned; (b) one engine per list of C01's quick universe (+ cosmetic rules): all answers hashed by the single-thread build and recomputed by the thread-safe build; states = distinct traces + engines, transitions = scheduling points + queries; non-trivial = distinct traces",
         &[
             "no preemption between two scheduling points: sound if no shared mutable state is touched outside the lock (checked separately, non-exhaustively, by a free-running Miri pass in the thorough tier)",
             "weak-memory behaviours below the mutex are not modelled",
